@@ -98,6 +98,7 @@ func c18(c *q.Ctx) {
 		c.ReturnIs(fn, 0, []string{"state.(*State).CreateXMSnapshotReader(p0,p0.latestBlockid)#0 OR xmodel.(*XModel).CreateXMSnapshotReader(p0.xmodel,p0.latestBlockid)#0"}, "the tip byte reader is always a snapshot at the latest confirmed block")
 	}
 	liveModelHandOut(c)
+	commitVersionChecks(c)
 	if fn := c.Fn(st + "(*State).CreateXMSnapshotReader"); fn != nil {
 		c.ArgIs(fn, "XModel.CreateXMSnapshotReader", 1, "p1", 1, "at the requested block")
 	}
